@@ -206,20 +206,25 @@ func runPair(r *vh.Rng, directed int) *pairScen {
 		cfg = pairCfg{allow: true, approves: true, cid: 1, sid: 1}
 	case 10:
 		cfg = pairCfg{allow: true, cancels: true}
+	case 11, 12: // a server that trusts beforehand: the user cancels / approves (again) while it waits in ready-listen
+		cfg = pairCfg{paired: true, cancels: directed == 11, approves: directed == 12}
+	case 13, 14:
+		cfg = pairCfg{auto: true, allow: true, cancels: directed == 13, approves: directed == 14, cid: 1, sid: 1}
 	}
+	inReady := directed >= 11 && directed <= 14
 	// patient mode (PairPatient.v): while the user has not acted and nothing is under way, the
 	// pending server's timer may expire - a prolongation request is sent, the client answers -
 	// before the approval or cancel comes
 	rounds := 0
 	if directed >= 8 && directed <= 10 {
 		rounds = 1 + directed%2
-	} else if directed > 10 && r.Chance(35) {
+	} else if directed > 14 && r.Chance(35) {
 		rounds = 1 + r.Intn(3)
 	}
 	// racing mode (PairArb.v): in a quarter of the random runs a timer may expire at any moment
 	// at which the peer has taken what the expiring side wrote and at most one frame is in flight
 	// towards it - also while the user has not acted and while that frame is under way
-	racing := directed > 10 && rounds == 0 && r.Chance(25)
+	racing := directed > 14 && rounds == 0 && r.Chance(25)
 	sc := &pairScen{cfg: cfg}
 	trusted := false
 	var qcs, qsc []wireItem
@@ -356,10 +361,18 @@ func runPair(r *vh.Rng, directed int) *pairScen {
 				continue
 			}
 		}
+		if inReady && !userDone && sv.conn.VerifSnapshot().State == 8 {
+			if cfg.approves {
+				exec("LApprove")
+			} else {
+				exec("LCancel")
+			}
+			continue
+		}
 		userCan := !userDone && (cfg.approves || cfg.cancels)
 		if userCan && rounds > 0 && len(en) == 0 {
 			ss := sv.conn.VerifSnapshot()
-			if ss.State == 11 && ss.TimerRunning && (cfg.allow || trusted) && (directed <= 10 || r.Chance(70)) {
+			if ss.State == 11 && ss.TimerRunning && (cfg.allow || trusted) && (directed <= 14 || r.Chance(70)) {
 				rounds--
 				exec("LTimeoutS")
 				continue
